@@ -48,3 +48,20 @@ Example C18_saturates :
   gauss_noise_vox U8 250 (107 # 10) == 255 /\ gauss_noise_vox I16 (inject_Z (-32768)) (-(107 # 10)) == inject_Z (-32768) /\
   invert_int I16 (-32768) = 32767%Z.
 Proof. vm_compute. repeat split; reflexivity. Qed.
+
+(* the parameter samplers (regenerated from get_params): for every configured range and every draw, the contrast
+   factor is 1 + c with c within contrast_limit, the brightness offset lies within brightness_limit, gamma within
+   gamma_limit / 100 and the Downscale factor within [scale_min, scale_max] *)
+From DV.lib Require Import PyRt.
+From DV.gen Require Import Gen_cls_pixel_samplers.
+From DV.proofs Require Import PixSamplers.
+Theorem C18_samplers_draw_from_their_own_limits :
+  (forall b1 b2 c1 c2 d1 d2 alpha beta, b1 <= b2 -> c1 <= c2 ->
+     RandomBrightnessContrastS_get_params (b1, b2) (c1, c2) d1 d2 = Ok (alpha, beta) ->
+     (1 + c1 <= alpha /\ alpha <= 1 + c2) /\ (b1 <= beta /\ beta <= b2)) /\
+  (forall g1 g2 d1 gamma, g1 <= g2 -> RandomGammaS_get_params (g1, g2) d1 = Ok gamma -> g1 / 100 <= gamma /\ gamma <= g2 / 100) /\
+  (forall smax smin d1 s, smin <= smax -> DownscaleS_get_params smax smin d1 = Ok s -> smin <= s /\ s <= smax).
+Proof.
+  split; [exact RandomBrightnessContrast_params|]. split; [exact RandomGamma_params | exact Downscale_params].
+Qed.
+Print Assumptions C18_samplers_draw_from_their_own_limits.
